@@ -21,6 +21,8 @@ func ValueTexts(tier string) []string {
 		`fn()`, `fn("a")`, `fn("a", decl.foo)`, `fn(fn2(1), 2)`, `ns::fn(1)`, `provider::aws::x`, `provider::aws::xy("a")`, `unknown(1)`, `fn(`, `fn("a", `, `vf(1, 2, 3)`, `nop()`,
 		`"${decl.foo}"`, `"a${decl.foo.bar}b"`, `"%{ if decl.foo }a%{ endif }"`, "<<EOT\nfoo ${decl.foo}\nEOT", `"${`, `"a-${fn("x")}"`,
 		`1 + 2`, `decl.foo == 1`, `!decl.foo`, `-1`, `true ? decl.foo : "b"`, `true ? null : "a"`, `(decl.foo)`, `decl.foo[decl.foo.bar]`, `decl.foo.*.id`,
+		`["a", true, f]`, `[1, 2, 3]`, `{ foo = "x", "${decl.foo}" = 1 }`, `{ foo = "x", (decl.foo) = true }`, `{ foo = "x", 42 = 1 }`, `provider::aws::x€ `, `provider::aw» y`,
+		`fn2(1, )`, `fn(fn2(1, ), "b")`, `[decl.foo, decl.bar, decl.foo]`,
 		`string`, `list(string)`, `object({a=string})`, `tuple([string, bool])`, `map(any)`, `object({a=optional(string)})`, `list(`, `object({`, `any`,
 	}
 	if tier == "thorough" {
@@ -59,7 +61,7 @@ func Functions() map[string]schema.FunctionSignature {
 			Params:     []function.Parameter{{Name: "first", Type: cty.Number}},
 			VarParam:   &function.Parameter{Name: "rest", Type: cty.Number, Description: "the rest"},
 		},
-		"nop": {ReturnType: cty.DynamicPseudoType},
+		"nop":  {ReturnType: cty.DynamicPseudoType},
 		"objf": {ReturnType: objType, Params: []function.Parameter{{Name: "o", Type: cty.Map(cty.String)}}},
 	}
 }
@@ -95,7 +97,9 @@ func tokenBounds(text string) [][2]int {
 // Edits1 returns the single-token edits of text: delete each token, duplicate each token,
 // insert each alphabet token at each boundary and (full=true) replace each token by each
 // alphabet token.
-func Edits1(text string, full bool) []string { return EditsLevel(text, map[bool]int{false: 1, true: 2}[full]) }
+func Edits1(text string, full bool) []string {
+	return EditsLevel(text, map[bool]int{false: 1, true: 2}[full])
+}
 
 // QuickEditTokens is the reduced insertion alphabet of the quick tier.
 var QuickEditTokens = []string{"=", "{", "}", "\"", ".", ",", "\n", "x"}
